@@ -137,7 +137,7 @@ func cutPoints(n, max int) []int {
 }
 
 func genC13(cfg runCfg, e *emitter, rng *rand.Rand) {
-	nHist := tierN(cfg, 40, 600)
+	nHist := tierN(cfg, 80, 600)
 	maxCuts := tierN(cfg, 600, 1<<30)
 	for hI := 0; hI < nHist; hI++ {
 		e.line("CASE ser%d", hI)
